@@ -4,7 +4,7 @@ recovery msg servers on multi-party histories; the decidable spec checker (Model
 evaluated inside Coq on the REAL observations."""
 import json, os
 
-FILES = ["Base/Prelude.v", "Base/Dec.v", "Model/NetPropsLib.v", "Model/Identity.v", "Model/C16Check.v", "Proofs/Identity.v"]
+FILES = ["Base/Prelude.v", "Base/Dec.v", "Model/NetPropsLib.v", "Model/Identity.v", "Model/C16Check.v", "Proofs/Identity.v", "Proofs/IdentityOwner.v"]
 
 
 def observe(R, n, seed=None, ops=None):
@@ -33,11 +33,13 @@ def run(R):
     R.trusted += ["hand-written model Model/Identity.v of identity_registrar.go, the identity message ValidateBasic, ClaimCouncilor, ClaimValidator, the UniqueIdentityKeys write paths and the identity/balance/actor part of RotateRecoveryAddress; validated on every run by the differential run (results ok/rejected/panic, all records, raw address index, all requests, unique-key list, balances after every operation)",
                   "transaction atomicity (an error or panic discards the message's writes) is reproduced by the harness with one cached store per message, as baseapp does",
                   "request indexes by requester / approver are modelled as derived from the request store (kept consistent by SetIdentityRecordsVerifyRequest / DeleteIdRecordsVerifyRequest); iteration while deleting in the cachekv store is exercised by the differential run, not modelled",
+                  "two model flags are PROBED on the tree under test by the harness and passed to the model: del_fix (DeleteIdentityRecordById removes the address+key index entry) and msg_guard (MsgSetNetworkProperties applies the EnsureUniqueKeys guards); the theorems are stated per flag value",
                   "no axioms: every theorem of Properties/C16.v is closed under the global context"]
     R.assume += ["addresses are abstract integers (bech32 is a bijection); record and request ids stay far below 2^64",
                  "parties hold only the denominations ukex and utip; the rotation fee payer is a separate account",
                  "ClaimValidator only creates a pending validator, so no party is an active validator (GetValidatorByMoniker never finds one)",
-                 "ASCII keys and values (strings.ToLower / len modelled on ASCII)"]
+                 "ASCII keys and values (strings.ToLower / len modelled on ASCII)",
+                 "history-level 'only owners edit' / 'edit cancels requests' theorems assume rotations go to addresses that hold no identity records (rot_guarded); the code checks that the target has no account, and an address without account cannot have signed a registration"]
     R.coq_files(FILES)
     R.coq_property()
     R.audit()
